@@ -427,8 +427,14 @@ int register_mod_src(m_mod_t *mod, m_src_types type, const void *src_data,
             if (ret == 0 && src->type == M_SRC_TYPE_TASK) {
                 ret = start_task(c, src);
             }
+            if (ret != 0) {
+                /* The source cannot be polled: do not leave it registered */
+                const int err = errno;
+                m_bst_remove(mod->srcs[type], src);
+                return err ? -err : ret;
+            }
         }
-        return !ret ? 0 : -errno;
+        return 0;
     }
     m_mem_unref(src);
     return ret;
